@@ -458,6 +458,21 @@ func (e *lenEval) stmts(list []ast.Stmt, into *linForm) (returned bool) {
 			if len(st.Results) == 1 && c.isIdentOf(st.Results[0], e.acc) {
 				return true
 			}
+			// no accumulator at all: `return term + term + ...` is the whole sum
+			if len(st.Results) == 1 && e.acc == nil {
+				var flatAll func(x ast.Expr)
+				flatAll = func(x ast.Expr) {
+					x = ast.Unparen(x)
+					if be, ok := x.(*ast.BinaryExpr); ok && be.Op == token.ADD {
+						flatAll(be.X)
+						flatAll(be.Y)
+						return
+					}
+					into.add(e.eval(x), 1)
+				}
+				flatAll(st.Results[0])
+				return true
+			}
 			// `return l + term + ...`: the same as `l += term; ...; return l`
 			if len(st.Results) == 1 && e.acc != nil {
 				var terms []ast.Expr
